@@ -39,6 +39,31 @@ theorem decodeEof_tail_rule (a : Bytes) (h : LF ∉ a) :
 example : decodeEof [97, 13] = (.ok [97], [13]) := by decide
 example : decodeEof [13] = (.none, [13]) := by decide
 
+/-- **one codec instance, the buffer growing in pieces** (what `Framed` does between reads, and
+what a decoder that remembers how far it has searched must still get right): `decode` until `None`
+after every piece, `decode_eof` until `None` at the end — the results are the reference split of the
+concatenation, whatever the pieces -/
+theorem chunked_eq_spec (pieces : List Bytes) : chunkedAll pieces = splitSpec pieces.flatten :=
+  chunkedAll_eq_splitSpec pieces
+
+example : chunkedAll [[97], [10, 10]] = [.ok [97], .ok []] ∧ splitSpec [97, 10, 10] = [.ok [97], .ok []] := by
+  decide
+example : chunkedAll [[97, 13], [], [10, 0xFF], [10, 98], [13]] = [.ok [97], .err, .ok [98]] := by decide
+
+/-- **`decode_eof` called directly** on a buffer that still holds complete lines (`decode` was not
+called first): every line — the invalid ones as errors, not swallowed — then the tail: the
+reference split again -/
+theorem decodeEof_direct_eq_spec (s : Bytes) : eofAll s = splitSpec s := eofAll_eq_splitSpec s
+
+example : eofAll [97, 10, 0xFF, 10, 98] = [.ok [97], .err, .ok [98]] := by decide
+example : decodeEof [0xFF, 10, 98] = (.err, [98]) := by decide
+
+/-- pieces, the last one appended without a `decode` in between, then `decode_eof` until `None` -/
+theorem chunked_direct_eof_eq_spec (pieces : List Bytes) :
+    chunkedEof pieces = splitSpec pieces.flatten := chunkedEof_eq_splitSpec pieces
+
+example : chunkedEof [[97], [10, 0xFF, 10, 98, 13]] = [.ok [97], .err, .ok [98]] := by decide
+
 /-- encoding appends the item and exactly one LF to the destination buffer -/
 theorem encode_appends_lf (item dst : Bytes) : encode item dst = dst ++ item ++ [LF] := rfl
 
